@@ -210,6 +210,9 @@ func validateUnionCases(env *Environment, errorSink *validation.ErrorSink) *Envi
 				// Check the referenced type with the type arguments provided
 				self.Visit(t.ResolvedDefinition, true)
 			}
+
+			// The type arguments are types written at this location and have to be checked as such.
+			self.VisitChildren(node, visitingReference)
 		default:
 			self.VisitChildren(node, visitingReference)
 		}
